@@ -60,6 +60,18 @@ theorem gen_constants_eq :
       (frameWindowUpdate, "parseWindowUpdateFrame"), (frameContinuation, "parseContinuationFrame"),
       (framePriorityUpdate, "parsePriorityUpdateFrame")] := by decide
 
+/-- T-fact on the reader's state: the receiver fields the read-path methods of `Framer` assign are
+exactly these. `lastHeaderStream` is the model's `Framer.lastHeaderStream`; `errDetail` (error text),
+`lastFrame` (frame invalidation) and `lastFrameType` (used only in an error message) do not influence
+what a later `ReadFrame` returns and are not modelled. A new field written on the read path — e.g. a
+counter that accumulates over the Framer's lifetime — changes the regenerated list and breaks this
+theorem until the model accounts for it. -/
+theorem gen_reader_state_eq :
+    Gen.C06.readerWrittenFields =
+      [("ReadFrameHeader", ["errDetail"]), ("ReadFrameForHeader", ["lastFrame"]), ("ReadFrame", []),
+       ("checkFrameOrder", ["lastFrameType", "lastHeaderStream"]), ("connError", ["errDetail"]),
+       ("readMetaFrame", ["errDetail"])] := by decide
+
 /-- `SetMaxReadFrameSize` as translated from the Go source is the model's clamp. -/
 theorem gen_setMaxReadFrameSize_eq (old v : Nat) :
     Gen.C06.setMaxReadFrameSize old v = some (setMaxReadFrameSize v) := by
